@@ -1014,6 +1014,51 @@ def find_content_scope(limit=None):
     return {"reproduced": False, "note": f"{n} hand-built content objects honour the interface", "instances": n}
 
 
+def find_iterator(cls_name, meth):
+    """iterate_images / iterate_tables of a content class on hand-built well-typed instances (defaults, the DocContent scope, and
+    one instance per class whose list fields hold one nested element each): no exception, every yielded value implements the
+    interface the method promises (data_types.ImageInterface / TableInterface methods present)."""
+    from sharepoint2text.parsing.extractors import data_types as dt
+    import dataclasses
+    need = ("get_bytes", "get_content_type", "get_metadata") if meth == "iterate_images" else ("get_table", "get_dim")
+    cls = getattr(dt, cls_name, None)
+    objs = [(l, o) for l, o in content_scope() if type(o).__name__ == cls_name][:40]
+
+    def build(c, depth=0):
+        kw = {}
+        for f in dataclasses.fields(c):
+            t = str(f.type)
+            inner = t[t.find("[") + 1:t.rfind("]")] if "ist[" in t else None
+            if inner is not None and depth < 2:
+                ic = getattr(dt, inner.split(".")[-1].strip("'\""), None)
+                if inner.replace(" ", "").lower().startswith(("list[list", "typing.list[typing.list")):
+                    kw[f.name] = [[["a", "b"], ["c"]]]
+                elif ic is not None and dataclasses.is_dataclass(ic):
+                    try:
+                        kw[f.name] = [build(ic, depth + 1)]
+                    except Exception:  # noqa
+                        pass
+            elif f.default is dataclasses.MISSING and f.default_factory is dataclasses.MISSING:
+                kw[f.name] = 1 if t.startswith("int") else (b"x" if "bytes" in t else "")
+        return c(**kw)
+    if cls is not None and dataclasses.is_dataclass(cls):
+        try:
+            objs.append((f"{cls_name}(<one nested element per list field>)", build(cls)))
+        except Exception:  # noqa
+            pass
+    for label, obj in objs:
+        try:
+            got = list(getattr(obj, meth)())
+        except Exception as e:  # noqa
+            return {"reproduced": True, "target": f"data_types.py::{cls_name}.{meth}", "inputs": {"object": label}, "expected": "no exception",
+                    "observed": f"{type(e).__name__}: {e}"}
+        for v in got:
+            if not all(callable(getattr(v, m, None)) for m in need):
+                return {"reproduced": True, "target": f"data_types.py::{cls_name}.{meth}", "inputs": {"object": label},
+                        "expected": f"every yielded value has {', '.join(need)}", "observed": f"yields a {type(v).__name__}"}
+    return {"reproduced": False, "note": f"{cls_name}.{meth}: {len(objs)} hand-built instances"}
+
+
 # --------------------------------------------------------------- isolation --
 META_MEMBERS = ("meta.xml", "docProps/core.xml", "docProps/app.xml")
 
@@ -1182,6 +1227,11 @@ def find(req):
             return {"reproduced": True, "target": ob, "inputs": {"file": s[0]["file"]}, "expected": "size_bytes == len(payload), number >= 1, accessors total",
                     "observed": f"{s[0]['where']}: {s[0]['detail']}"}
         return {"reproduced": False, "note": "damaged / garbled pictures, BLIP stream and fixtures: every image honours the interface"}
+    if ".iterate_images/" in ob or ".iterate_tables/" in ob:
+        q = ob.split("::")[1].split("/")[0]
+        r = find_iterator(*q.split(".", 1))
+        if r["reproduced"]:
+            return r
     if ".get_dim/" in ob:
         return find_table(ob.split("::")[1].split(".")[0])
     if ".get_table/" in ob and ("/inv-" in ob or "/ensures#row-count" in ob or "/ensures#every-row" in ob):
